@@ -30,7 +30,8 @@ def run(ctx):
                 # the same defect inside a decorated CID: the offending row moves with the decoration
                 info2 = dict(info)
                 drows, imap = cidlib.decorate(rnd, new_rows, {"format": info["format"]})
-                cases.append(("defect+decorated:" + name, drows, None if where is None else imap[where]))
+                # (a defect reported after the last row stays after the last row)
+                cases.append(("defect+decorated:" + name, drows, None if where is None else imap.get(where, len(drows))))
     outs = core.run_driver([cidlib.model_line(rows) for _, rows, _ in cases])
     canon_cache = {}
     for (kind, rows, expect), mo in zip(cases, outs):
